@@ -70,9 +70,9 @@ func show(v any) string {
 		return fmt.Sprintf("[]byte(len=%d){% x}", len(x), x)
 	case string:
 		if len(x) > 48 {
-			return fmt.Sprintf("string(len=%d)%q...", len(x), x[:48])
+			return fmt.Sprintf("string(len=%d)%+q...", len(x), x[:48])
 		}
-		return fmt.Sprintf("%q", x)
+		return fmt.Sprintf("%+q", x)
 	case []string:
 		if len(x) > 4 {
 			return fmt.Sprintf("[]string(len=%d){%s, ...}", len(x), show(x[0]))
